@@ -112,3 +112,9 @@ Proof. repeat split; reflexivity. Qed.
 From SymfcG Require Import ShapesApi SkelApi.
 Theorem c08_facade_in_force : ShapesApi_as_recorded = true /\ SkelApi_as_recorded = true.
 Proof. repeat split; reflexivity. Qed.
+
+(** The rest of the code path of this property's statement (the solvers that produce the compact and the full arrays) is the recorded source: whole-function / skeleton match,
+    regenerated on every run. *)
+From SymfcG Require Import ShapesSolvers SkelSolvers.
+Theorem c08_code_path_in_force : ShapesSolvers_as_recorded = true /\ SkelSolvers_as_recorded = true.
+Proof. repeat split; reflexivity. Qed.
